@@ -559,8 +559,8 @@ func ruleFlagCases(c *Ctx, rule string) {
 		}
 	}
 	type state struct {
-		b      *ssa.BasicBlock
-		s, e   bool
+		b    *ssa.BasicBlock
+		s, e bool
 	}
 	seen := map[state]bool{}
 	var bad *ssa.BasicBlock
@@ -1579,4 +1579,86 @@ func addrWritten(ia *ssa.IndexAddr) bool {
 		}
 	}
 	return false
+}
+
+// ---- trimwindow (C06): Trim commits the start of a window together with its end ----
+
+// ruleTrimWindow: Trim scans once, keeping the running sum of (limit - error)
+// since the last reset and the best sum so far (Kadane). The window it
+// returns is described by two results. They describe one window only if the
+// returned start is committed where the returned end is — on the edge where
+// a new maximum is recorded — and not where the running sum is reset (a reset
+// after the best window would move start past end). Before any reset the
+// window starts at the sequence's own Start().
+func ruleTrimWindow(c *Ctx, rule string) {
+	fn := c.fn("seq/sequtils", "Trim")
+	c.Funcs[funcName(fn)] = true
+	rets := returnsOf(fn)
+	if len(rets) != 1 || len(rets[0].Results) != 2 {
+		c.und(rule, "sequtils.Trim/window", fn.Pos(), "Trim does not have a single return of two results")
+		return
+	}
+	// the header phis of the two results
+	hdr := func(v ssa.Value) *ssa.Phi {
+		p, _ := v.(*ssa.Phi)
+		return p
+	}
+	S, E := hdr(rets[0].Results[0]), hdr(rets[0].Results[1])
+	if S == nil || E == nil {
+		c.und(rule, "sequtils.Trim/window", fn.Pos(), "the results are not loop-carried values")
+		return
+	}
+	var loop *ssaLoop
+	for _, l := range naturalLoops(fn) {
+		if l.head == S.Block() {
+			loop = l
+		}
+	}
+	if loop == nil || E.Block() != S.Block() {
+		c.und(rule, "sequtils.Trim/window", fn.Pos(), "the results are not carried by the same loop")
+		return
+	}
+	// (1) initial value of start
+	key1 := "sequtils.Trim/start-initialised-from-Start()"
+	var init ssa.Value
+	for i, pred := range S.Block().Preds {
+		if !loop.body[pred] {
+			init = S.Edges[i]
+		}
+	}
+	isStartCall := func(v ssa.Value) bool {
+		call, ok := v.(*ssa.Call)
+		return ok && call.Call.IsInvoke() && call.Call.Method.Name() == "Start" && call.Call.Value == ssa.Value(fn.Params[0])
+	}
+	if init != nil && isStartCall(init) {
+		c.ok(rule, key1, S.Pos(), "before any reset the window starts at q.Start()")
+	} else {
+		c.bad(rule, key1, S.Pos(), "the returned start is not initialised from q.Start(): for a sequence that does not begin at 0 a window that is never reset is reported as starting at 0, outside the sequence")
+	}
+	// (2) where the loop gives start and end new values
+	commit := func(h *ssa.Phi) (*ssa.BasicBlock, bool) {
+		for i, pred := range h.Block().Preds {
+			if !loop.body[pred] {
+				continue
+			}
+			// the value arriving over the back edge: a phi at the join that chose between old and new
+			j, ok := h.Edges[i].(*ssa.Phi)
+			if !ok {
+				return nil, false
+			}
+			return j.Block(), true
+		}
+		return nil, false
+	}
+	key2 := "sequtils.Trim/start-committed-with-end"
+	bs, ok1 := commit(S)
+	be, ok2 := commit(E)
+	switch {
+	case !ok1 || !ok2:
+		c.und(rule, key2, fn.Pos(), "the updates of the results inside the loop were not recognised")
+	case bs == be:
+		c.ok(rule, key2, S.Pos(), "the returned start and end take new values at the same join: the start of a window is committed when its end is")
+	default:
+		c.bad(rule, key2, S.Pos(), "the returned start takes its new value where the running sum is reset, the returned end where a new maximum is recorded: a reset that follows the best window moves start past end (the results no longer describe the maximal window, or any window)")
+	}
 }
